@@ -530,3 +530,48 @@ def r_proj_passthrough(cx):
               "than that): plain Rust Geodesy text is rewritten, e.g. `permtide ... k=0.25` loses its `k`" % what,
               cx.where(f.d["span"]))
     cx.count("R-PROJ-PASSTHROUGH", "guards", n)
+
+
+@rule("R-PROJ-GLOBALS-KEPT", ["C17"])
+def r_proj_globals_kept(cx):
+    """Everything written on the `proj=pipeline` element except `inv` is a pipeline global and reaches every step -
+    flags (`+south`, `+exact`) as well as key=value pairs. The filter that builds the list of globals excludes exactly
+    the element `inv`: its predicate is an (in)equality test against the literal "inv", not a test of the element's form
+    (such as `contains('=')`, which drops every flag)."""
+    import elems as E
+    f = cx.f.fn(PARSE)
+    n = 0
+    for bb, t in f.calls():
+        c = f.callee(t) or ""
+        if c.rsplit("::", 1)[-1] not in ("filter", "retain", "filter_map", "take_while", "skip_while"):
+            continue
+        # only filters whose result feeds the globals (not the step splitting): the predicate mentions "inv", or the
+        # filtered text is the joined pipeline element list
+        recv = f.arg_terms(bb)[0]
+        for a in f.arg_terms(bb)[1:]:
+            if not (a[0] == "agg" and isinstance(a[1], tuple) and a[1][0] == "closure" and cx.f.has_fn(a[1][1])):
+                continue
+            g = cx.f.fn(a[1][1])
+            rt = E.return_term(g)
+            rt = mir.strip_refs(rt) if rt is not None else ("unknown",)
+            from_join = []
+            mir.walk(recv, lambda y: (from_join.append(1) if y[0] == "call" and isinstance(y[1], str) and
+                                      y[1].rsplit("::", 1)[-1] == "join" else None) or True)
+            mentions_inv = []
+            mir.walk(rt, lambda y: (mentions_inv.append(1) if y[0] == "const" and y[2] == ("str", "inv") else None) or True)
+            if not from_join and not mentions_inv:
+                continue
+            n += 1
+            neg = False
+            core = rt
+            while core[0] == "un" and core[1] == "Not":
+                core, neg = mir.strip_refs(core[2]), not neg
+            is_eq = (core[0] == "call" and isinstance(core[1], str) and core[1].rsplit("::", 1)[-1] in ("ne", "eq")) or \
+                (core[0] == "bin" and core[1] in ("Ne", "Eq"))
+            ok = is_eq and bool(mentions_inv)
+            cx.ob("R-PROJ-GLOBALS-KEPT", "filter%d" % (n - 1), ok,
+                  "the element filter excludes exactly `inv`" if ok else
+                  "parse_proj filters the elements of a step / of the pipeline globals by %s instead of excluding exactly "
+                  "`inv`: flag-valued globals such as `+south` or `+exact` never reach the steps" % mir.show(rt, maxd=3)[:50],
+                  cx.where(t["span"]))
+    cx.count("R-PROJ-GLOBALS-KEPT", "filters", n)
